@@ -186,13 +186,19 @@ func runC11(r *lib.Run) {
 				call("MergeStructs", []snap{st(), sb}, func() { ygot.MergeStructs(t, b, mopts...) })
 			}
 			// --- decoding APIs: the payloads must stay intact
-			if j, err := emit(t, nil); err == nil {
+			// (documents with plain and with module-qualified member names)
+			for _, jm := range jsonModes() {
+				j, err := emit(t, jm.cfg)
+				if err != nil {
+					continue
+				}
 				var tree interface{}
 				json.Unmarshal([]byte(j), &tree)
 				dst := cfg.NewRoot()
 				call("Unmarshal", []snap{snapValue("decoded JSON", tree)}, func() { cfg.UnmarshalValue(tree, dst) })
 				dst2 := lib.NewGen(cfg, r.Seed+9, i, opt).Tree()
 				call("Unmarshal", []snap{snapValue("decoded JSON", tree)}, func() { cfg.UnmarshalValue(tree, dst2, &ytypes.IgnoreExtraFields{}) })
+				r.Hit("unmarshal-json-mode:" + jm.name)
 			}
 			ups := leafUpdates(o, nil, false)
 			for k, u := range ups {
